@@ -22,7 +22,7 @@ var specSinks = []string{"rt.Sink1", "rt.Sink3", "rt.Sink4", "rt.Sink5", "rt.Sin
 var specSinkIDs = []string{"1", "3", "4", "5", "6"}
 
 // SpecForms are the call forms.
-var SpecForms = []string{"func", "methodV", "methodP", "iface", "ifaceBoth"}
+var SpecForms = []string{"func", "methodV", "methodP", "iface", "ifaceBoth", "fvalue", "ifaceImplSpec", "mvalue"}
 
 type summaryJSON struct {
 	Args [][]int
@@ -75,7 +75,7 @@ func makeSpecCase(a, kinds, r, am, rm int, form string) SpecCase {
 		}
 	}
 	off := 0 // index shift for a receiver
-	if form != "func" {
+	if form != "func" && form != "fvalue" {
 		off = 1
 	}
 	// the specification (with the receiver as argument 0 when there is one; the receiver keeps its own taint)
@@ -163,12 +163,17 @@ func makeSpecCase(a, kinds, r, am, rm int, form string) SpecCase {
 	var spec []map[string]any
 	methods := map[string]any{"Spec": sj}
 	switch form {
-	case "func":
+	case "func", "fvalue":
 		fmt.Fprintf(&sb, "func Spec(%s)%s {\n%s}\n", strings.Join(params, ", "), results, body.String())
 		key = "call"
 		spec = append(spec, map[string]any{"ObjectPath": MainPath, "Methods": methods})
-	case "methodV":
+	case "methodV", "mvalue":
 		fmt.Fprintf(&sb, "type K struct{}\nfunc (K) Spec(%s)%s {\n%s}\n", strings.Join(params, ", "), results, body.String())
+		spec = append(spec, map[string]any{"ObjectPath": "(" + MainPath + ".K)", "Methods": methods})
+	case "ifaceImplSpec":
+		// the interface has no contract; the only implementation has a function contract
+		fmt.Fprintf(&sb, "type I interface{ Spec(%s)%s }\ntype K struct{}\nfunc (K) Spec(%s)%s {\n%s}\n", strings.Join(params, ", "), results,
+			strings.Join(params, ", "), results, body.String())
 		spec = append(spec, map[string]any{"ObjectPath": "(" + MainPath + ".K)", "Methods": methods})
 	case "methodP":
 		fmt.Fprintf(&sb, "type K struct{ x int }\nfunc (*K) Spec(%s)%s {\n%s}\n", strings.Join(params, ", "), results, body.String())
@@ -215,6 +220,15 @@ func makeSpecCase(a, kinds, r, am, rm int, form string) SpecCase {
 	switch form {
 	case "func":
 		recv = "Spec"
+	case "fvalue":
+		sb.WriteString("\tfv := Spec\n")
+		recv = "fv"
+	case "mvalue":
+		sb.WriteString("\tmv := K{}.Spec\n")
+		recv = "mv"
+	case "ifaceImplSpec":
+		sb.WriteString("\tvar it I = K{}\n")
+		recv = "it.Spec"
 	case "methodV":
 		recv = "K{}.Spec"
 	case "methodP":
